@@ -236,7 +236,7 @@ pub fn run(ctx: &mut Ctx) {
         }
         ctx.class("no_std_crate_with_all_units");
     }
-    let n = ctx.n(300, 5000) as usize;
+    let n = ctx.n(1000, 10000) as usize;
     let tapes = crate::drive::gen_tapes(ctx.seed, 1900, n, TAPE_LEN);
     let cases: Vec<Case> = tapes.iter().map(|tp| gen_case(&mut Tape::new(tp), excl)).collect();
     let mut batch = Batch::new("c19", Opts { feature_unimock: false, members: 16, ..Default::default() });
